@@ -147,12 +147,12 @@ def _explicit_raises(sm):
 def _named_rejections(ctx):
     eng, prog = ctx.eng, ctx.prog
     # (a) threshold not met -> SignatureError : explicit raises of verify_signable after the per-entry loop
-    sm = eng.walk("authentication.verify_signable")
+    from .vs import VSModel
+
+    vm = VSModel(eng)
     n = 0
-    sigmap = SubC(P(sm.params[0]), "signatures")
-    for p in _explicit_raises(sm):
-        after_loop = any(ev[0] == "loop" and ev[2] == sigmap for ev in p.events)
-        if not after_loop:
+    for p in vm.post_raises:
+        if p.value.origin != "explicit" or len(p.value.chain) != 1:
             continue
         n += 1
         s = p.value.chain[0]
@@ -186,6 +186,20 @@ def _named_rejections(ctx):
             ver_seen += 1
             ctx.ob("R2", "version-mismatch-class|%s" % s.key(), s.loc(), "a root version mismatch is reported as %s (expected MetadataVerificationError)" % p.value.exc, prog.exc_is_sub(p.value.exc, "MetadataVerificationError"))
     ctx.count("R2.version_raise", min(ver_seen, 1))
+    # an error raised while the named exception is being built replaces it
+    named = {"SignatureError", "UnknownRoleError", "MetadataVerificationError"}
+    seen = set()
+    for q in VERIFIERS:
+        for p in eng.walk(q).paths:
+            if p.kind == "raise" and p.value.origin.startswith("raise-args:"):
+                intended = p.value.origin.split(":", 1)[1]
+                if intended in named and not prog.exc_is_sub(p.value.exc, intended):
+                    s = p.value.chain[-1]
+                    k = (intended, p.value.exc, s.key())
+                    if k in seen:
+                        continue
+                    seen.add(k)
+                    ctx.ob("R2", "replaced-while-building|%s|%s|%s" % k, s.loc(), "the rejection that should be reported as %s can surface as %s instead: %s" % (intended, p.value.exc, p.value.why[:160]), False)
     for nm in ("R2.threshold_raise", "R2.unknown_role_raise", "R2.type_mismatch_raise", "R2.version_raise"):
         if ctx.counts.get(nm, 0) < 1:
             ctx.ob("R2", "missing|" + nm, "authentication.py", "no explicit raise found for the named rejection %s: the condition is no longer reported by a dedicated error" % nm.split(".")[1], False)
